@@ -88,8 +88,13 @@ def pairs_for(case, V, mk):
     runner = FakeRunner(cfg, mk)
     xs = CrossSection(on.ObservableName(f"{kind}_{flav}"), runner)
     kin = {"x": V["x"], "Q2": V["Q2"], "y": V["y"]}
-    xs.load([kin])
-    res = xs.get_result()[0]
+    # the probed point is not the first of the run: an earlier point of the same y bin (another x) has been evaluated before it, and the
+    # results are requested twice -- the formula has to hold for every point of every request, not for the first evaluation only
+    kin_prev = {"x": V["x"] / 2, "Q2": V["Q2"], "y": V["y"]}
+    xs.load([kin_prev, kin])
+    res = xs.get_result()[1]
+    res_again = xs.get_result()[1]
+    runner.requests = [r for r in runner.requests if r[1].get("x") is not kin_prev["x"]]
     out = []
     if kind == "g5":
         c = xsref.coeffs_polarized(kind)
@@ -117,6 +122,7 @@ def pairs_for(case, V, mk):
                     # the code may skip F3 only if its coefficient vanishes
                     out.append((f"F3 skipped only when its coefficient is 0 [{o}{which}{j}]", c[2], 0))
                 out.append((f"sigma[{o}].{which}[{j}]", res.orders[o][idx][0, j], ref))
+                out.append((f"second get_result: sigma[{o}].{which}[{j}]", res_again.orders[o][idx][0, j] if o in res_again.orders else None, ref))
     return out
 
 
